@@ -9,6 +9,7 @@ import (
 	"fmt"
 	"hash/fnv"
 	"os"
+	"runtime"
 	"runtime/debug"
 	"sort"
 	"time"
@@ -68,8 +69,28 @@ func main() {
 	list := flag.Bool("list", false, "list harnesses")
 	verbose := flag.Bool("v", false, "verbose")
 	det := flag.String("det", "", "write one line per run (index, fingerprint, verdicts) for the determinism self-test")
+	memGB := flag.Int("memgb", 6, "heap limit in GiB (0 = none)")
 	flag.Parse()
 	debug.SetGCPercent(200)
+	if *memGB > 0 {
+		// memory watchdog: a decode that allocates without bound (corrupt length
+		// fields) ends this worker with a distinct status instead of taking the
+		// machine down; the controller counts the run as resource-inconclusive
+		go func() {
+			var ms runtime.MemStats
+			for {
+				time.Sleep(250 * time.Millisecond)
+				runtime.ReadMemStats(&ms)
+				if ms.HeapAlloc > uint64(*memGB)<<30 {
+					fmt.Fprintf(os.Stderr, "SIMW-RESOURCE: heap %d MiB exceeds the %d GiB limit\n", ms.HeapAlloc>>20, *memGB)
+					buf := make([]byte, 1<<18)
+					n := runtime.Stack(buf, true)
+					os.Stderr.Write(buf[:n])
+					os.Exit(98)
+				}
+			}
+		}()
+	}
 
 	if *list {
 		for _, n := range core.Names() {
@@ -83,7 +104,7 @@ func main() {
 	h := core.Get(*harness)
 	if h == nil {
 		fmt.Fprintln(os.Stderr, "unknown harness", *harness)
-		os.Exit(2)
+		os.Exit(simrt.InfraExit)
 	}
 	fmt.Printf("SEED harness=%s config=%s seed=%d from=%d to=%d stride=%d race=%v\n", *harness, *config, *seed, *from, *to, *stride, *race)
 	agg := &aggregate{Harness: *harness, Config: *config, Race: *race, From: *from, To: *to,
@@ -95,7 +116,7 @@ func main() {
 		fpf, err = os.Create(*out + ".fp")
 		if err != nil {
 			fmt.Fprintln(os.Stderr, err)
-			os.Exit(2)
+			os.Exit(simrt.InfraExit)
 		}
 	}
 	var mf *os.File
@@ -121,7 +142,7 @@ func main() {
 			tmp := *out + ".json.tmp"
 			if err := os.WriteFile(tmp, b, 0o644); err != nil {
 				fmt.Fprintln(os.Stderr, err)
-				os.Exit(2)
+				os.Exit(simrt.InfraExit)
 			}
 			os.Rename(tmp, *out+".json")
 		} else {
@@ -328,17 +349,17 @@ func doReplay(path string, race bool, verbose bool) int {
 	b, err := os.ReadFile(path)
 	if err != nil {
 		fmt.Fprintln(os.Stderr, err)
-		return 2
+		return simrt.InfraExit
 	}
 	var rp core.Replay
 	if err := json.Unmarshal(b, &rp); err != nil {
 		fmt.Fprintln(os.Stderr, err)
-		return 2
+		return simrt.InfraExit
 	}
 	h := core.Get(rp.Harness)
 	if h == nil {
 		fmt.Fprintln(os.Stderr, "unknown harness", rp.Harness)
-		return 2
+		return simrt.InfraExit
 	}
 	fmt.Printf("SEED replay harness=%s config=%s seed=%d run=%d tape_len=%d\n", rp.Harness, rp.Config, rp.Seed, rp.Idx, len(rp.Tape))
 	rc := &core.RunCtx{Tier: rp.Tier, Config: rp.Config, Idx: rp.Idx, Race: race, Replay: true}
